@@ -119,3 +119,7 @@ func ZZDeliverAck(c *ClientConn, m *message.UpstreamChunkAck) { c.msgUpstreamChu
 func ZZStartAckLoop(c *ClientConn) { go c.readUpstreamChunkAckLoop() }
 
 func ZZCancel(c *ClientConn) { c.cancel() }
+
+func ZZStartMetadataLoop(c *ClientConn) { go c.readDownstreamMetadataLoop() }
+
+func ZZDeliverMetadata(c *ClientConn, m *message.DownstreamMetadata) { c.msgDownstreamMetaDataCh <- m }
